@@ -47,7 +47,7 @@ fn judge(case: &EvalCase, actual: &Actual, model: &me::MRes) -> Verdict {
 }
 
 pub fn default_tables(sel: u8) -> (BTreeMap<String, FnSpec>, BTreeMap<String, Value>) {
-    if sel % 2 == 0 {
+    if sel % 4 == 0 {
         return (BTreeMap::new(), BTreeMap::new());
     }
     let mut fns = BTreeMap::new();
